@@ -35,12 +35,15 @@ LEVEL_NOTE = ("Refcount half: C20_refcount_exact / _freed_iff_unreferenced / _fr
 
 def gen_vs(rng):
     ops = []
+    val = lambda: 0 if rng.random() < 0.25 else rng.randint(-50, 50)
+    # the first tracked object of a history carries the stored identity 0: with value 0 and an in-place type its bytes are all zero
+    if rng.random() < 0.3: ops.append("set:%d:%d:0" % (rng.randint(0, 3), rng.randint(0, 1)))
     for _ in range(rng.randint(3, 30)):
         k = rng.random(); i = rng.randint(0, 3); j = rng.randint(0, 3)
-        if k < 0.3: ops.append("set:%d:%d:%d" % (i, rng.randint(0, 3), rng.randint(-50, 50)))
+        if k < 0.3: ops.append("set:%d:%d:%d" % (i, rng.randint(0, 3), val()))
         elif k < 0.5: ops.append("cp:%d:%d" % (i, j if rng.random() < 0.9 else i))
         elif k < 0.65: ops.append("sw:%d:%d" % (i, j))
-        elif k < 0.75: ops.append("ad:%d:%d:%d" % (i, rng.randint(0, 3), rng.randint(-50, 50)))
+        elif k < 0.75: ops.append("ad:%d:%d:%d" % (i, rng.randint(0, 3), val()))
         elif k < 0.82: ops.append("cl:%d" % i)
         elif k < 0.86: ops.append("su:%d" % i)
         elif k < 0.90: ops.append("ra:%d" % i)              # surrender + assimilate of the SAME object
